@@ -55,7 +55,8 @@ CLS_OSX = 'unnamed-oserror-subclass-retried'
 # ---------------------------------------------------------------------------------------------------
 # E3: delay_ms_for_try, AST -> z3
 class DelayEncoding:
-    """Translate the straight-line body of delay_ms_for_try.  Supported: assignments to names, return; int constants,
+    """Translate the body of delay_ms_for_try.  Supported: assignments to names, return, `if` on integer comparisons whose
+    branch ends in a return (merged with ite; a draw inside a branch is constrained only under its guard); int constants,
     names (parameters, locals, module-level int constants), + - * // (constant positive divisor), `1 << e`
     (table for 0<=e<=62, unconstrained otherwise), min/max of two, random.randrange(e) (fresh draw r, 0<=r<e)."""
 
@@ -82,17 +83,55 @@ class DelayEncoding:
         self.draw_side = []   # 0 <= r < n per draw
         self.fresh = 0
         self.ret = None
-        for st in fn.body:
+        self.draw_guards = []
+        self.guards = []      # conditions of the enclosing `if` branches (a draw happens only under them)
+        self.ret = self.block(list(fn.body))
+        if self.ret is None:
+            raise HarnessError('delay_ms_for_try: no final return')
+
+    def block(self, stmts):
+        """Value returned by a statement list: assignments, `if` whose taken branch ends in a return (merged with ite), return."""
+        for k, st in enumerate(stmts):
             if isinstance(st, ast.Expr) and isinstance(st.value, ast.Constant):
                 continue
             if isinstance(st, ast.Assign) and len(st.targets) == 1 and isinstance(st.targets[0], ast.Name):
                 self.env[st.targets[0].id] = self.ex(st.value)
-            elif isinstance(st, ast.Return) and st is fn.body[-1]:
-                self.ret = self.ex(st.value)
+            elif isinstance(st, ast.Return) and st.value is not None:
+                return self.ex(st.value)
+            elif isinstance(st, ast.If):
+                c = self.cond(st.test)
+                saved = dict(self.env)
+                self.guards.append(c)
+                a = self.block(list(st.body))
+                self.guards.pop()
+                if a is None:
+                    raise HarnessError(f'delay_ms_for_try: `if` branch without a return: {ast.unparse(st)[:80]}')
+                self.env = dict(saved)
+                self.guards.append(z3.Not(c))
+                b = self.block(list(st.orelse) + stmts[k + 1:])
+                self.guards.pop()
+                self.env = saved
+                if b is None:
+                    return None
+                return z3.If(c, a, b)
             else:
                 raise HarnessError(f'delay_ms_for_try: untranslatable statement {ast.unparse(st)}')
-        if self.ret is None:
-            raise HarnessError('delay_ms_for_try: no final return')
+        return None
+
+    def cond(self, n):
+        if isinstance(n, ast.Compare) and len(n.ops) == 1:
+            a, b = self.ex(n.left), self.ex(n.comparators[0])
+            op = n.ops[0]
+            for cls, f in ((ast.Lt, lambda: a < b), (ast.LtE, lambda: a <= b), (ast.Gt, lambda: a > b), (ast.GtE, lambda: a >= b),
+                           (ast.Eq, lambda: a == b), (ast.NotEq, lambda: a != b)):
+                if isinstance(op, cls):
+                    return f()
+        if isinstance(n, ast.BoolOp):
+            vs = [self.cond(v) for v in n.values]
+            return z3.And(*vs) if isinstance(n.op, ast.And) else z3.Or(*vs)
+        if isinstance(n, ast.UnaryOp) and isinstance(n.op, ast.Not):
+            return z3.Not(self.cond(n.operand))
+        raise HarnessError(f'delay_ms_for_try: untranslatable condition {ast.unparse(n)}')
 
     def _const(self, node):
         if isinstance(node, ast.Constant) and isinstance(node.value, int):
@@ -143,7 +182,8 @@ class DelayEncoding:
                 m = self.ex(n.args[0])
                 r = self._new('draw')
                 self.draws.append((r, m))
-                self.draw_side.append(z3.And(0 <= r, r < m))
+                self.draw_guards.append(z3.And(*self.guards) if self.guards else z3.BoolVal(True))
+                self.draw_side.append(z3.Implies(z3.And(*self.guards) if self.guards else z3.BoolVal(True), z3.And(0 <= r, r < m)))
                 return r
         raise HarnessError(f'delay_ms_for_try: untranslatable expression {ast.unparse(n)}')
 
@@ -199,7 +239,7 @@ def check_delay(R, H):
             s.add(common + [extra])
             tw.append(str(s.check()))
         reach = tw == ['sat', 'sat']
-        for name, phi in list(props.items()) + [(NOVALUEERROR, rn >= 1)]:
+        for name, phi in list(props.items()) + [(NOVALUEERROR, z3.Implies(enc.draw_guards[0], rn >= 1))]:
             s = z3.Solver()
             s.set('timeout', 120000)
             s.add((nodraw if name == NOVALUEERROR else common) + [z3.Not(phi)])
